@@ -76,6 +76,12 @@ def build_jobs(t: str, sd: int):
                 if v2 <= low:
                     continue
                 add(name, rec, opts, base, {"version": v2, "optimize": None}, ["userslots"])
+    # version 4 has its own calling sequence around re-entrant calls (dig instead of cover/uncover):
+    # the routine family written for v4 against the same recipe at later versions
+    base = {"version": 4, "optimize": None}
+    for (name, rec, opts) in gen_subs.sub_family("A", 4, thorough):
+        for v2 in ([5, 6, 7, 8, 10] if thorough else [6]):
+            add(name, rec, opts, base, {"version": v2, "optimize": None}, ["userslots"])
     for j in jobs[:: max(1, len(jobs) // 5)]:
         j["want_sample"] = True
         j["keep_teal"] = True
